@@ -88,7 +88,7 @@ def check(ctx):
     if getattr(ctx, "selftest", False):
         return selftest(ctx)
     quick = ctx.tier == "quick"
-    allc = [1, 2, 3, 4, 5, 8]
+    allc = [1, 2, 3, 4, 5, 8, 9]
     B = ["plain", "sub", "stop", "dup", "again"]   # SubOpts: the script works in $WORK / after `cd sub` with every entry under sub/ / ends with a `stop` line
     # (MaxSlots, KindMode, Cs, ArchG, ByOpts, driver stride, walks per worker, SubOpts); bounds fitted to measured counts, see REGISTRY.
     # walks = 0: TLC explores every state; walks > 0: seeded random walks (-simulate, SIM_WORKERS workers) through a slot
